@@ -45,6 +45,17 @@ B = [
     ("get_rounds_start_only_when_needed", [(DS, "        if starttime:\n            starttime = starttime.replace(", "        if starttime and starttime.microsecond % 1000:\n            starttime = starttime.replace(")]),
     ("delete_bucket_flushes_first", [(SQ, "    def delete_bucket(self, bucket_id: str):\n        self.conn.execute(", "    def delete_bucket(self, bucket_id: str):\n        self.commit()\n        self.conn.execute(")]),
     ("memory_sorted_key_tuple", [(MEM, "        last = sorted(self.db[bucket_id], key=lambda e: e.timestamp)[-1]", "        last = sorted(enumerate(self.db[bucket_id]), key=lambda ie: (ie[1].timestamp, ie[0]))[-1][1]")]),
+    ("peewee_get_last_tiebreak_id", [(PW, "            .order_by(EventModel.timestamp.desc())\n            .get()", "            .order_by(EventModel.timestamp.desc(), EventModel.id.desc())\n            .get()"), (PW, "            .order_by(EventModel.timestamp.desc())\n            .limit(limit)", "            .order_by(EventModel.timestamp.desc(), EventModel.id.desc())\n            .limit(limit)")]),
+    ("peewee_chunks_of_50", [(PW, "        for chunk in chunks(events_dictlist, 100):", "        for chunk in chunks(events_dictlist, 50):")]),
+    ("peewee_no_clipping", [(PW, "        for e in events:\n            if starttime:\n                if e.timestamp < starttime:", "        for e in []:\n            if starttime:\n                if e.timestamp < starttime:")]),
+    ("peewee_atomic_ops", [(PW, "    def delete_bucket(self, bucket_id: str) -> None:\n        if bucket_id in self.bucket_keys:\n            EventModel.delete().where(\n                EventModel.bucket == self.bucket_keys[bucket_id]\n            ).execute()\n            BucketModel.delete().where(\n                BucketModel.key == self.bucket_keys[bucket_id]\n            ).execute()", "    def delete_bucket(self, bucket_id: str) -> None:\n        if bucket_id in self.bucket_keys:\n            with self.db.atomic():\n                EventModel.delete().where(\n                    EventModel.bucket == self.bucket_keys[bucket_id]\n                ).execute()\n                BucketModel.delete().where(\n                    BucketModel.key == self.bucket_keys[bucket_id]\n                ).execute()")]),
+    ("memory_filter_then_sort", [(MEM, "        # Sort by timestamp\n        events = sorted(events, key=lambda k: k[\"timestamp\"])[::-1]\n\n        # Filter by date\n        if starttime:\n            events = [e for e in events if starttime <= (e.timestamp + e.duration)]\n        if endtime:\n            events = [e for e in events if e.timestamp <= endtime]\n", "        # Filter by date\n        if starttime:\n            events = [e for e in events if starttime <= (e.timestamp + e.duration)]\n        if endtime:\n            events = [e for e in events if e.timestamp <= endtime]\n\n        # Sort by timestamp\n        events = sorted(events, key=lambda k: k[\"timestamp\"])[::-1]\n")]),
+    ("sqlite_executemany_as_loop", [(SQ, "        self.conn.executemany(query, event_rows)\n", "        for event_row in event_rows:\n            self.conn.execute(query, event_row)\n")]),
+    ("sqlite_extra_index_and_sync_normal", [(SQ, "        self.conn.execute(\"PRAGMA journal_mode=WAL;\")\n", "        self.conn.execute(\"PRAGMA journal_mode=WAL;\")\n        self.conn.execute(\"PRAGMA synchronous=NORMAL;\")\n        self.conn.execute(\"CREATE INDEX IF NOT EXISTS event_index_start_only ON events(starttime)\")\n")]),
+    ("datastore_getitem_no_cache", [(DS, "        if bucket_id not in self.bucket_instances:\n            # If the bucket exists in the database, create an object representation of it\n            if bucket_id in self.buckets():", "        if True:\n            # If the bucket exists in the database, create an object representation of it\n            if bucket_id in self.buckets():")]),
+    ("config_comment_out_keepends", [("aw_core/config.py", "    return \"\\n\".join(\n        [\n            \"#\" + line if line.strip() and not line.strip().startswith(\"[\") else line\n            for line in s.split(\"\\n\")\n        ]\n    )", "    out = []\n    for line in s.split(\"\\n\"):\n        stripped = line.strip()\n        if stripped and not stripped.startswith(\"[\"):\n            line = \"#\" + line\n        out.append(line)\n    return \"\\n\".join(out)")]),
+    ("heartbeat_merge_max_as_if", [("aw_transform/heartbeats.py", "                last_event.duration = max((last_event.duration, new_duration))", "                if new_duration > last_event.duration:\n                    last_event.duration = new_duration")]),
+    ("query_bucket_parse_once", [("aw_query/functions.py", "    _verify_bucket_exists(datastore, bucketname)\n    try:\n        starttime = iso8601.parse_date(namespace[\"STARTTIME\"])\n        endtime = iso8601.parse_date(namespace[\"ENDTIME\"])", "    _verify_bucket_exists(datastore, bucketname)\n    try:\n        starttime, endtime = (iso8601.parse_date(namespace[k]) for k in (\"STARTTIME\", \"ENDTIME\"))")]),
 ]
 
 
